@@ -1880,21 +1880,20 @@ struct Value {
             groupedValue.reset();
             groupedValue.setTypeToObject();
 
-            if ((item_ != nullptr) && item_->isObject() && item_->object_.GetKeyIndex(grouped_key_index, key, length)) {
+            if (array_.IsNotEmpty()) {
                 const Value *end = array_.End();
 
                 while (item_ != end) {
-                    if ((item_ != nullptr) && item_->isObject()) {
+                    // The grouping key can sit anywhere inside each object: look it up per item.
+                    if (item_->isObject() && item_->object_.GetKeyIndex(grouped_key_index, key, length)) {
                         SizeT count = 0;
 
                         const VItem *obj_item = item_->object_.First();
                         const VItem *obj_end  = item_->object_.End();
 
                         while (obj_item != obj_end) {
-                            if ((obj_item != nullptr) && !(obj_item->Value.isUndefined())) {
-                                if (count != grouped_key_index) {
-                                    new_sub_obj[obj_item->Key] = obj_item->Value;
-                                } else if (!(obj_item->Value.SetCharAndLength(str, str_len))) {
+                            if (count == grouped_key_index) {
+                                if (!(obj_item->Value.SetCharAndLength(str, str_len))) {
                                     stream.Clear();
 
                                     if (obj_item->Value.CopyValueTo(stream)) {
@@ -1904,13 +1903,13 @@ struct Value {
                                         return false;
                                     }
                                 }
-
-                                ++count;
-                                ++obj_item;
-                                continue;
+                            } else if (!(obj_item->Value.isUndefined())) {
+                                // Removed members (and undefined values) are skipped.
+                                new_sub_obj[obj_item->Key] = obj_item->Value;
                             }
 
-                            return false;
+                            ++count;
+                            ++obj_item;
                         }
 
                         groupedValue.object_.Get(str, str_len) += Memory::Move(new_sub_obj);
